@@ -219,9 +219,22 @@ func (a *archetype) FreeTable(table *table) {
 	a.freeTables = append(a.freeTables, table.id)
 	table.isFree = true
 
-	// If there is only one relation, the resp. relationTables
-	// entry is removed anyway.
+	// If there is only one relation, it is sufficient to remove
+	// the table from the entries of its own target.
+	// The table may be freed while the target is still alive (see storage.Shrink).
 	if a.numRelations <= 1 {
+		for i := range table.columns {
+			column := &table.columns[i]
+			if !column.isRelation {
+				continue
+			}
+			if tables, ok := a.relationTables[i][column.target.id]; ok {
+				_ = tables.Remove(table.id)
+			}
+			if tables, ok := a.targetTables[column.target.id]; ok {
+				_ = tables.Remove(table.id)
+			}
+		}
 		return
 	}
 
